@@ -245,6 +245,18 @@ def restoration_bounded_instance():
                 al = pa.DHTVPermutationAlignment(stft_size=2 * (F - 1), segment_start=(F - width) // 2, segment_width=width,
                                                  segment_shift=max(1, width // 3), main_iterations=20, sub_iterations=2)
             _, a, b = al.alignment_plan[0]
+            # the clause is conditional on the plan: every later segment (after stretching to the band edges) overlaps the
+            # already aligned band by at least two thirds; custom plans that do not are outside the property
+            lo_, hi_ = a, b
+            plan_ok = True
+            for _, s_, e_ in al.alignment_plan[1:]:
+                inter = max(0, min(e_, hi_) - max(s_, lo_))
+                if inter * 3 < 2 * (e_ - s_):
+                    plan_ok = False
+                lo_, hi_ = min(lo_, s_), max(hi_, e_)
+            if not plan_ok and which != 'dhtv-default':
+                return {'mapping': None, 'field': field, 'which': 'plan-outside-the-overlap-condition'}
+            default_plan_ok = plan_ok
             # at least 70 % of the bins of the first segment share one order
             maj = rng.permutation(K)
             idx = np.arange(a, b)
@@ -253,9 +265,17 @@ def restoration_bounded_instance():
             field[:, keep] = maj[:, None]
         mask = ref[field, np.arange(F)]
         mapping = al.calculate_mapping(mask.copy())
-        return {'mapping': mapping, 'field': field, 'which': which}
+        res = {'mapping': mapping, 'field': field, 'which': which}
+        if which == 'dhtv-default':
+            res['default_plan_ok'] = default_plan_ok
+        return res
 
     def ensures(sp, inp, out):
+        if out['mapping'] is None:
+            yield 'not-applicable[%s]' % out['which'], True
+            return
+        if 'default_plan_ok' in out:
+            yield 'shipped-default-plan-overlaps-the-aligned-band-by-two-thirds', bool(out['default_plan_ok'])
         mp, field = np.asarray(out['mapping']), out['field']
         comp = field[mp, np.arange(field.shape[1])]            # class order after alignment, per bin
         yield 'class-order-constant-over-frequency[%s]' % out['which'], bool(np.all(comp == comp[:, :1]))
